@@ -25,7 +25,7 @@ ALLP = ["D0", "SOne", "SChain", "SIndep", "SNest", "SLit", "S2", "VmD", "VmS", "
 FAST = ["D0", "SOne", "SChain", "SIndep", "SNest", "SLit", "S2", "VmD", "VmS", "VmAx", "VmAx2", "VmMask", "Rep", "Rep3",
         "SwXY", "SwSame", "Sw3", "SSw", "SVm", "Msk", "MskD", "Dm", "Dm2", "DmMap", "DmCon", "OrE", "MixE"]
 SLOW = ["Sc1", "Sc2", "Sc3", "ScSw", "DmSc", "Acc", "Red", "It", "ItF"]    # masked-iterate programs belong to C16 only
-EAGER = ["D0", "SOne", "SChain", "SIndep", "SNest", "SLit", "S2", "SDup", "Dm", "Dm2", "DmMap", "DmCon", "Msk", "MskD"]
+EAGER = ["Clo1", "Clo2", "Clo0", "CloP", "CloK", "D0", "SOne", "SChain", "SIndep", "SNest", "SLit", "S2", "SDup", "Dm", "Dm2", "DmMap", "DmCon", "Msk", "MskD"]
 EAGER_ND = [x for x in EAGER if x != "SDup"]
 REGEN = ["D0", "SOne", "SChain", "SIndep", "SNest", "S2", "Dm", "Dm2", "DmMap", "DmCon"]
 REGEN_SLOW = ["Sc1", "Sc2", "DmSc", "It"]
@@ -63,8 +63,9 @@ PROFILES = {
     "C07": dict(own=["regen.unselected", "regen.weight", "regen.empty", "upd.args"],
                 gens=[dict(ids=REGEN, first=["simulate", "generate"], edits=["regenerate", "regenerate", "regenerate", "update"], depth=3, n=(128, 2400)),
                       dict(ids=REGEN_SLOW, first=["simulate"], edits=["regenerate"], depth=2, n=(24, 400))]),
-    "C08": dict(own=["nochange"],
-                gens=[dict(ids=FAST, first=["simulate", "generate"], edits=["update", "update", "updateargs", "regenerate", "indexupdate", "empty", "staticreq"], depth=3, n=(128, 2400)),
+    "C08": dict(own=["nochange", "tagging", "tagging.run"],
+                gens=[dict(ids=["SLit", "SLit", "SOne", "SChain", "SNest", "S2", "S2", "Dm", "Dm2", "DmMap", "DmCon", "Msk", "VmS", "VmAx", "SwSame", "SVm"], ids_thorough=FAST + ["SLit", "S2", "Dm2"],
+                           first=["simulate", "generate"], edits=["update", "update", "update", "updateargs", "regenerate", "staticreq"], depth=3, n=(160, 2400)),
                       dict(ids=SLOW, first=["simulate"], edits=["update", "updateargs", "indexupdate"], depth=2, n=(24, 500))]),
     "C10": dict(own=["project.value", "project.split", "run"],
                 gens=[dict(ids=PROJ, first=["simulate", "generate"], edits=["project", "project", "project", "update"], depth=4, n=(128, 2400)),
@@ -86,6 +87,12 @@ PROFILES = {
                 gens=[dict(ids=["MIt", "MItF", "MItF1"], first=["simulate", "generate"], edits=["update", "updateargs"], depth=1, n=(64, 600))]),
     "C22": dict(own=["visited", "reuse", "run", "missing", "assess.run"],
                 gens=[dict(ids=["SOne", "SChain", "SIndep", "SNest", "SLit", "S2", "SDup", "SSw", "SVm"], first=["simulate", "generate"], edits=["update", "regenerate", "staticreq", "assess", "assess", "assess"], depth=3, n=(160, 2000))]),
+    "C23": dict(own=["mode.status", "mode.same"], modes=True,
+                gens=[dict(ids=[x for x in FAST if x not in ("SLit",)] + ["VmNest"], first=["simulate", "generate"], edits=["update", "update", "updateargs", "regenerate", "project"], depth=2, n=(96, 1500)),
+                      dict(ids=SLOW, first=["simulate", "generate"], edits=["update", "regenerate", "indexupdate"], depth=1, n=(20, 300))]),
+    "C32": dict(own=CORE + ["derived.run", "derived.same", "undo.run", "undo.restore", "undo.weight"],
+                gens=[dict(ids=["Clo1", "Clo2", "Clo0", "CloP", "CloK", "CloSw", "CloVm"], first=["simulate", "generate"],
+                           edits=["update", "update", "updateargs", "regenerate", "project", "assess"], depth=3, n=(120, 1500))]),
     "C34": dict(own=["subtrace.choices", "subtrace.score", "run"],
                 gens=[dict(ids=["SOne", "SChain", "SIndep", "SNest", "S2", "VmS", "VmAx", "Rep", "Msk", "Dm", "Dm2"], first=["simulate", "generate"], edits=["subtrace", "subtrace", "update"], depth=3, n=(128, 2000)),
                       dict(ids=["Sc1", "Sc2", "Sc3"], first=["simulate"], edits=["subtrace"], depth=2, n=(24, 300))]),
@@ -113,6 +120,8 @@ PROPS = {
     "C15": _t("All core laws on dimap/map/contramap programs plus soundness of the return-value tag after argument changes.", "§5 C15"),
     "C16": _t("masked_iterate / masked_iterate_final against the reference loop in which a False step is inert (no score; value unchanged for the final variant).", "§5 C16"),
     "C22": _t("Static programs incl. tuple addresses and a duplicated address: visited addresses = trace addresses, AddressReuse where a trace is built.", "§5 C22"),
+    "C23": _t("Every generated history is executed eagerly and under jax.jit (whole GFI call jitted; keys, arguments, constraint values, indices and traces traced) with the same keys, and its first operation and first update/regenerate also under jax.vmap over 3 keys and constraint values; TLC checks each event's eager and jit results coincide and each vmap slice equals the unbatched call (and that a mode does not fail where the other succeeds). All events are also validated against the spec laws.", "§5 C23"),
+    "C32": _t("Closures gen_fn(*stored), gen_fn(**stored keywords) and partial_apply(*stored) over static, switch and vmap functions: every GFI method (simulate, importance, assess, project, update and edit THROUGH the closure object, applying its backward request) must satisfy the laws of the underlying program run on stored+extra arguments (Exec of the closure term), and give the same result as the underlying function called with the full arguments and the same key.", "§5 C32"),
     "C34": _t("get_subtrace at every call-site address of static programs (also under vmap/repeat/scan/mask/dimap, where the sub-trace is the stacked one): choices = the parent's sub-map at that address below the leading index levels, score = that call's contribution in Exec.", "§5 C34"),
     "C35": _t("importance and update with Mask-wrapped constraint values (concrete Python flags and traced array flags): validated against the spec with the EFFECTIVE constraint (False entries removed), and differentially against the same request with True masks unwrapped and False entries dropped, run with the same key.", "§5 C35"),
     "C38": _t("propose vs simulate, generate vs importance, Trace.update/edit vs request.edit with the same key; EmptyRequest identity; StaticRequest leaves unaddressed sites alone; DiffAnnotate with identity maps equals its inner request.", "§5 C38"),
@@ -310,17 +319,38 @@ def run(prop_id, tier, seed, replay=None):
         want.append("undo")
     if any(c.startswith("derived") for c in own):
         want.append("alt")
+    if any(c.startswith("tagging") for c in own):
+        want.append("tagvar")
     if any(c.startswith("mask.") for c in own):
         want.append("maskeq")
+    if prof.get("modes"):
+        # C23: every case in eager and in jit mode (same keys), plus the vmap routine; pair the events up
+        base = cases
+        cases = []
+        for c in base:
+            for m in ("eager", "jit", "vmap"):
+                cases.append(dict(c, mode=m))
     events = run_driver(catalog, cases, want=want)
+    if prof.get("modes"):
+        byk = {(ev["tid"], ev["seq"]): ev for ev in events if ev.get("seq", 0) >= 0 and ev.get("mode") in ("eager", "jit")}
+        for (tid, seq), ev in byk.items():
+            if ev["mode"] == "eager" and tid % 3 == 0:
+                other = byk.get((tid + 1, seq))
+                if other is not None:
+                    ev["altm"] = {"status": other["status"] if other["status"] == "ok" or not other["status"].startswith("rejected") else "rejected",
+                                  "post": other["post"], "w": other["w"]}
+                    if ev["status"].startswith("rejected") and other["status"].startswith("rejected"):
+                        ev["altm"]["status"] = "none"
     drv_s = time.time() - t0
     good, bad = sanitize(events)
     for ev in bad:
         sig = {"clause": f"{prop_id}.projection", "pid": ev.get("pid"), "status": ev.get("status", "lookup-error")}
         if str(ev.get("status", "")).startswith("driver-error"):
             raise vlib.MachineryError("driver error: " + ev.get("error", ""))
-        rep.violation(sig, {"event": ev, "case": cases[ev["tid"]]})
+        rep.violation(sig, {"event": ev, "case": case_of(ev["tid"])})
     fails = validate(wd, good, rep)
+    def case_of(tid):
+        return cases[(tid - 1000000) // 8] if tid >= 1000000 else cases[tid]
     evmap = {(ev["tid"], ev["seq"]): ev for ev in good}
     own = set(prof["own"])
     other = {}
@@ -328,7 +358,7 @@ def run(prop_id, tier, seed, replay=None):
         ev = evmap[(f["tid"], f["seq"])]
         for cl in f["clauses"]:
             if cl in own:
-                rep.violation(signature(prop_id, cl, ev, None), {"case": cases[f["tid"]], "event": ev, "clauses": f["clauses"]})
+                rep.violation(signature(prop_id, cl, ev, None), {"case": case_of(f["tid"]), "event": ev, "clauses": f["clauses"]})
             else:
                 other[cl] = other.get(cl, 0) + 1
     # coverage bookkeeping
